@@ -260,6 +260,11 @@ pub fn gen_inside_field_retry_project(rng: &mut Rng, nodes: &[N]) -> Option<(Pro
         if chain[..j].iter().any(|(a1, f1)| a1.kind_id() == a2.kind_id() && f1.as_deref() == Some(f2.as_str())) {
           continue;
         }
+        // the property speaks of field names that label at most one child of the inspected parent (the guard of the
+        // c05 stream): a field that labels several children (Bash `argument`, ...) is looked up through its first child
+        if chain[..=j].iter().any(|(a, _)| a.kind_id() == a2.kind_id() && a.field_children(f2).count() > 1) {
+          continue;
+        }
         let inner = RObj { keys: vec![RKey::Pattern { text: "$R0".into(), selector: None, strictness: None }, RKey::Kind(a2.kind().to_string())] };
         let rel = Box::new(Rel { rule: inner, stop: Stop::End, field: Some(f2.clone()) });
         let rule = RObj { keys: vec![RKey::Pattern { text: "$Q0".into(), selector: None, strictness: None }, RKey::Kind(n.kind().to_string()), RKey::Inside(rel)] };
